@@ -3,11 +3,14 @@
      lock stripe; hash lookup (and insert of a fresh record where the code does that); lock record; unlock stripe;
      plain read / write of the word; test of m->full; gotlock_fill / gotlock_empty (under the record lock);
      unlock record; qthread_FEB_remove (lock stripe; lookup + re-check + remove; unlock stripe).
-   The record-absent fast paths are as in the code: writeF, writeFF, readFF, readFF_nb touch the word AFTER the stripe
-   lock was dropped and WITHOUT any lock when the lookup found no record.
+   The record-absent fast paths are as in the code (since /repo eba51ae): writeF, writeFF, readFF, readFF_nb access the word
+   inside the stripe critical section when the lookup finds no record, and purge_to stores before unlocking when it
+   inserted the record itself.  The access order before that commit (word touched AFTER the stripe lock was dropped, with
+   no lock held) is kept as [mstep_old]: it is not atomic (MicroProofs.micro_atomic_old_refuted).
    With two tasks a waiter list holds at most the other task, which is then blocked and cannot race; the body of
    gotlock_fill / gotlock_empty is therefore one step (it is executed under the record lock).
-   Used for a search for non-linearisable schedules (not wired into ./check). *)
+   Exhaustively searched (ocaml/c01micro_driver.ml), proved atomic for all pairs (MicroProofs.micro_atomic_pairs) and
+   replayed on the real code with a targeted baton (harness/c/c01_micro.c) by ./check C01. *)
 From Coq Require Import List ZArith NArith Bool.
 Import ListNotations.
 From QV Require Import Cell.Spec Feb.Model Feb.Proofs.
@@ -66,8 +69,9 @@ Definition block_on (s : mstate) (me : N) (th : thr) (r' : rec) : option mstate 
 Definition full_now (s : mstate) : bool := match m_rec s with Some r => r_full r | None => true end.
 Definition rec_now (s : mstate) : rec := match m_rec s with Some r => r | None => new_rec end.
 
-(* [fix] = the proposed repair: the record-absent fast paths of writeF / writeFF / readFF / readFF_nb, and the store of
-   purge_to when it inserted the record itself, are performed inside the stripe critical section (at the lookup) *)
+(* [fx] = true: the code as it is (eba51ae): the record-absent fast paths of writeF / writeFF / readFF / readFF_nb, and the
+   store of purge_to when it inserted the record itself, are performed inside the stripe critical section (at the lookup);
+   [fx] = false: the old order *)
 Definition fast_access (o : op) (s : mstate) (th : thr) : option (mstate * thr) :=
   match o with
   | OWriteF w | OWriteFF w => Some (set_word s (stored w (m_word s)), mkT o 3 false false (Some (OK, None)) false)
@@ -169,8 +173,8 @@ Definition mstep_gen (fx : bool) (s : mstate) (me : N) : option mstate :=
   | _, _ => None
   end.
 
-Definition mstep := mstep_gen false.          (* the code as it is *)
-Definition mstep_fixed := mstep_gen true.     (* with the proposed repair *)
+Definition mstep := mstep_gen true.           (* the code as it is *)
+Definition mstep_old := mstep_gen false.      (* access order before eba51ae (regression model) *)
 
 Definition init_thr (o : op) : thr := mkT o 0 false false None false.
 (* initial word state: no record (= full), or a record that says empty *)
